@@ -1,3 +1,55 @@
+/-
+  C20 — Custom zone-data factory: called on the caller's thread, never for UTC / fixed-offset
+  names, at most once per name and serially — the last two only when first loads do not race
+  (the documented contract does NOT hold for racing first loads: `contract_counterexample`,
+  known finding F3 in DESIGN.md).
+-/
 import Cctz.Model.Loader
+import Cctz.Proofs.LoaderInv
+
 namespace Cctz.C20
+open Cctz Cctz.Loader
+
+def reach (w : World) (names : List Name) (sched : List Nat) : LState := run w (initState names) sched
+
+/-- every invocation is logged by the thread that called load_time_zone for that very name -/
+def factory_on_caller_thread_statement : Prop :=
+  ∀ (w : World) (names : List Name) (sched : List Nat) (τ : Nat) (n : Name),
+    (τ, n) ∈ (reach w names sched).log → ∃ t, (reach w names sched).threads[τ]? = some t ∧ t.name = n
+
+/-- never for UTC, UTC0 or fixed-offset names -/
+def factory_never_for_fixed_statement : Prop :=
+  ∀ (w : World) (names : List Name) (sched : List Nat) (τ : Nat) (n : Name),
+    (τ, n) ∈ (reach w names sched).log → isFixedName n = false ∧ isUtcName n = false
+
+/-- a schedule in which every thread runs its whole load before the next one starts -/
+def sequentialSchedule (order : List Nat) : List Nat := order.flatMap fun τ => [τ, τ, τ, τ]
+
+/-- when loads do not overlap the contract holds: at most one invocation per name, never two at once -/
+def factory_once_sequential_statement : Prop :=
+  ∀ (w : World) (names : List Name) (order : List Nat) (n : Name), order.Nodup →
+    (((reach w names (sequentialSchedule order)).log.filter fun e => e.2 == n).length ≤ 1) ∧
+    (reach w names (sequentialSchedule order)).maxActive ≤ 1
+
+/-- a repeat load (the name is already in the cache) returns the cached zone in one step and does
+not consult the factory — also the cache half of C14 -/
+def cached_load_statement : Prop :=
+  ∀ (w : World) (s : LState) (τ : Nat) (t : Thread) (id : Ident),
+    s.threads[τ]? = some t → t.pc = .init → isUtcName t.name = false → s.map.lookup t.name = some id →
+    (step w s τ).log = s.log ∧ (step w s τ).map = s.map ∧
+    ((step w s τ).threads[τ]?.map (·.pc)) = some (.done (id != .utc) id)
+
+/-- a name that failed to load keeps failing with UTC, without consulting the factory again -/
+def failed_stays_failed_statement : Prop :=
+  ∀ (w : World) (s : LState) (τ : Nat) (t : Thread),
+    s.threads[τ]? = some t → t.pc = .init → isUtcName t.name = false → s.map.lookup t.name = some .utc →
+    (step w s τ).log = s.log ∧ ((step w s τ).threads[τ]?.map (·.pc)) = some (.done false .utc)
+
+/-- the documented clauses "only once for any zone name" and "serially" fail for racing first
+loads: two threads loading the same name, both past the first critical section before either
+inserts: two invocations for one name, both in progress at once -/
+def contract_counterexample_statement : Prop :=
+  ∃ (w : World) (names : List Name) (sched : List Nat) (n : Name),
+    ((reach w names sched).log.filter fun e => e.2 == n).length = 2 ∧ (reach w names sched).maxActive = 2
+
 end Cctz.C20
